@@ -10,37 +10,54 @@
   Model: `Record.eqv` (`PartialEq`), `Record.hashFeed` (what `Hash` feeds the hasher),
   `Record.compareContent` (`compare_content`), `decode`/`Record.encode`.
 
-  NOTE.  `PartialEq for Enr<K>` compares the sequence number, the node id and the signature only
-  (and `Hash` feeds exactly that triple).  Hence the clause "equal records carry identical
-  key/value pairs and encode identically" is NOT a theorem of the code alone: it rests on
-  signature unforgeability and on collision resistance of the node-id hash.  It is proved below
-  (`eqv_same_content`) from two explicit hypotheses — never axioms —
+  `PartialEq for Enr<K>` compares the sequence number, the node id, the signature AND the key/value
+  pairs; a `Record` is exactly these four fields, so `==` is structural equality (`eqv_iff_eq`) and
+  the clause "equal records carry identical key/value pairs and encode identically" is a theorem of
+  the code alone (`eqv_same_pairs`, `eqv_same_encoding`: no `Valid`, no cryptographic hypothesis).
+  `Hash` still feeds only (seq, node id, signature): equal records hash equally (`eqv_hash`), the
+  converse does not hold (`hashFeed_eq_not_eqv`) — which is all `Hash`/`Eq` coherence requires.
 
-    * `SigBinds S`   : under one public key a signature verifies for at most one payload;
-    * `HashInj S a b`: the two public keys in play do not collide under `nodeIdOf`;
+  HISTORY (section "the repaired defect" below).  `PartialEq` used to compare the sequence number,
+  the node id and the signature only (`eqvLegacy`).  Under that definition "equal records carry
+  identical pairs" rested on signature unforgeability and collision resistance of the node-id hash:
+  it is provable from two explicit hypotheses (`SigBinds`, `HashInj`; `eqvLegacy_same_content`) and
+  false without them (`eqvLegacy_content_needs_assumptions`: a degenerate scheme and two valid
+  records that are legacy-equal with different pairs).  On the real code the hypothesis `SigBinds`
+  does fail: a small-order ed25519 public key makes one signature valid for every content.  The
+  crate was repaired by comparing the pairs as well.
 
-  and `eqv_content_needs_assumptions` exhibits a (degenerate) scheme and two valid records that
-  are `==` but carry different pairs, showing that the hypotheses cannot be dropped.  "Differs from
-  any record with another key" is accordingly stated for the node id (`ne_of_nodeId`) and, for
-  public keys, under `HashInj`-style injectivity (`ne_of_pubkey`).
+  "Differs from any record with another key" is stated for the node id (`ne_of_nodeId`), for the
+  pairs (`ne_of_content`: the key is one of the pairs) and, for public keys of valid records,
+  `ne_of_pubkey` (unconditional now: different keys come from different pairs).
 -/
 import EnrVerif.Proofs.SchemeLemmas
 
 namespace EnrVerif
 
-/-! ### `==` is an equivalence relation on the compared triple -/
+/-! ### `==` is structural equality, hence an equivalence relation -/
 
 theorem eqv_iff (a b : Record) :
-    a.eqv b = true ↔ a.seq = b.seq ∧ a.nodeId = b.nodeId ∧ a.sig = b.sig := by
+    a.eqv b = true ↔
+      a.seq = b.seq ∧ a.nodeId = b.nodeId ∧ a.sig = b.sig ∧ a.content = b.content := by
   unfold Record.eqv
   simp only [Bool.and_eq_true, decide_eq_true_eq, and_assoc]
 
-theorem eqv_refl (a : Record) : a.eqv a = true := by
-  rw [eqv_iff]; exact ⟨rfl, rfl, rfl⟩
+/-- a record is exactly the four compared fields -/
+theorem eqv_iff_eq (a b : Record) : a.eqv b = true ↔ a = b := by
+  rw [eqv_iff]
+  constructor
+  · rintro ⟨h1, h2, h3, h4⟩
+    cases a; cases b
+    simp only at h1 h2 h3 h4
+    subst h1 h2 h3 h4
+    rfl
+  · rintro rfl
+    exact ⟨rfl, rfl, rfl, rfl⟩
 
-theorem eqv_symm (a b : Record) (h : a.eqv b = true) : b.eqv a = true := by
-  rw [eqv_iff] at h ⊢
-  exact ⟨h.1.symm, h.2.1.symm, h.2.2.symm⟩
+theorem eqv_refl (a : Record) : a.eqv a = true := (eqv_iff_eq a a).mpr rfl
+
+theorem eqv_symm (a b : Record) (h : a.eqv b = true) : b.eqv a = true :=
+  (eqv_iff_eq b a).mpr ((eqv_iff_eq a b).mp h).symm
 
 /-- symmetric as a Bool-valued function (also covers `!=`) -/
 theorem eqv_comm (a b : Record) : a.eqv b = b.eqv a := by
@@ -52,21 +69,18 @@ theorem eqv_comm (a b : Record) : a.eqv b = b.eqv a := by
     | true => rw [eqv_symm b a h'] at h; cases h
 
 theorem eqv_trans (a b c : Record) (h1 : a.eqv b = true) (h2 : b.eqv c = true) :
-    a.eqv c = true := by
-  rw [eqv_iff] at h1 h2 ⊢
-  exact ⟨h1.1.trans h2.1, h1.2.1.trans h2.2.1, h1.2.2.trans h2.2.2⟩
+    a.eqv c = true :=
+  (eqv_iff_eq a c).mpr (((eqv_iff_eq a b).mp h1).trans ((eqv_iff_eq b c).mp h2))
 
-/-- the hasher is fed exactly the compared triple: equal records hash equally … -/
+/-- equal records hash equally (the hasher is fed a sub-tuple of what is compared) -/
 theorem eqv_hash (a b : Record) (h : a.eqv b = true) : a.hashFeed = b.hashFeed := by
-  rw [eqv_iff] at h
-  unfold Record.hashFeed
-  rw [h.1, h.2.1, h.2.2]
+  rw [(eqv_iff_eq a b).mp h]
 
-/-- … and conversely (`Hash` and `PartialEq` look at the same data) -/
-theorem eqv_iff_hashFeed (a b : Record) : a.eqv b = true ↔ a.hashFeed = b.hashFeed := by
-  rw [eqv_iff]
-  unfold Record.hashFeed
-  simp only [Prod.mk.injEq]
+/-- The converse fails (and need not hold): the hasher does not see the pairs. -/
+theorem hashFeed_eq_not_eqv :
+    ∃ a b : Record, a.hashFeed = b.hashFeed ∧ a.eqv b = false :=
+  ⟨{ seq := 1, nodeId := [1], content := [], sig := [2] },
+   { seq := 1, nodeId := [1], content := [(kIp, [3])], sig := [2] }, rfl, by decide⟩
 
 /-- a record equals its clone -/
 theorem eqv_clone (r : Record) : r.eqv r = true := eqv_refl r
@@ -76,7 +90,27 @@ theorem eqv_redecode (S : Scheme) (r : Record) (h : Valid S r) :
     ∃ r', decode S r.encode = .ok (r', []) ∧ r.eqv r' = true ∧ r' = r :=
   ⟨r, encode_decode S r h, eqv_refl r, rfl⟩
 
-/-! ### differing in one of the three compared fields -/
+/-! ### equal records carry identical pairs and encode identically — unconditionally -/
+
+theorem eqv_same_pairs (a b : Record) (h : a.eqv b = true) : a.content = b.content :=
+  ((eqv_iff a b).mp h).2.2.2
+
+theorem eqv_same_encoding (a b : Record) (h : a.eqv b = true) : a.encode = b.encode := by
+  rw [(eqv_iff_eq a b).mp h]
+
+/-- on valid records `==` is exactly "same encoding" -/
+theorem eqv_iff_encode (S : Scheme) (a b : Record) (ha : Valid S a) (hb : Valid S b) :
+    a.eqv b = true ↔ a.encode = b.encode :=
+  ⟨eqv_same_encoding a b,
+   fun h => (eqv_iff_eq a b).mpr (encode_injective_valid S a b ha hb h)⟩
+
+/-- equal records have equal content comparison -/
+theorem eqv_compareContent (a b : Record) (h : a.eqv b = true) : a.compareContent b = true := by
+  rw [(eqv_iff_eq a b).mp h]
+  unfold Record.compareContent
+  simp
+
+/-! ### differing in one of the compared fields -/
 
 theorem ne_of_seq (a b : Record) (h : a.seq ≠ b.seq) : a.eqv b = false := by
   cases he : a.eqv b with
@@ -91,20 +125,21 @@ theorem ne_of_nodeId (a b : Record) (h : a.nodeId ≠ b.nodeId) : a.eqv b = fals
 theorem ne_of_sig (a b : Record) (h : a.sig ≠ b.sig) : a.eqv b = false := by
   cases he : a.eqv b with
   | false => rfl
-  | true => exact absurd ((eqv_iff a b).mp he).2.2 h
+  | true => exact absurd ((eqv_iff a b).mp he).2.2.1 h
 
-/-- Two valid records with different public keys are unequal, provided the node-id hash does not
-    collide on these two keys. -/
-theorem ne_of_pubkey (S : Scheme) (a b : Record) (ha : Valid S a) (hb : Valid S b)
-    (pa pb : S.PK) (hpa : S.enrToPublic a.content = .ok pa) (hpb : S.enrToPublic b.content = .ok pb)
-    (hne : pa ≠ pb) (hinj : nodeIdOf S pa = nodeIdOf S pb → pa = pb) : a.eqv b = false := by
-  apply ne_of_nodeId
-  obtain ⟨pa', hpa', hna, _⟩ := ha.authentic
-  obtain ⟨pb', hpb', hnb, _⟩ := hb.authentic
-  rw [hpa] at hpa'; rw [hpb] at hpb'
-  cases hpa'; cases hpb'
-  rw [hna, hnb]
-  exact fun h => hne (hinj h)
+theorem ne_of_content (a b : Record) (h : a.content ≠ b.content) : a.eqv b = false := by
+  cases he : a.eqv b with
+  | false => rfl
+  | true => exact absurd ((eqv_iff a b).mp he).2.2.2 h
+
+/-- Two records whose pairs name different public keys are unequal. -/
+theorem ne_of_pubkey (S : Scheme) (a b : Record) (pa pb : S.PK)
+    (hpa : S.enrToPublic a.content = .ok pa) (hpb : S.enrToPublic b.content = .ok pb)
+    (hne : pa ≠ pb) : a.eqv b = false := by
+  apply ne_of_content
+  intro hc
+  rw [hc, hpb] at hpa
+  exact hne (Except.ok.inj hpa).symm
 
 /-! ### content comparison -/
 
@@ -127,7 +162,26 @@ theorem compareContent_of_same (a b : Record) (hs : a.seq = b.seq) (hc : a.conte
 theorem compareContent_refl (a : Record) : a.compareContent a = true :=
   compareContent_of_same a a rfl rfl
 
-/-! ### equal records carry identical pairs — under the cryptographic hypotheses -/
+/-! ### the repaired defect: `PartialEq` without the pairs -/
+
+/-- `PartialEq` as it was before the repair: sequence number, node id and signature only. -/
+def eqvLegacy (a b : Record) : Bool := a.seq = b.seq && a.nodeId = b.nodeId && a.sig = b.sig
+
+theorem eqvLegacy_iff (a b : Record) :
+    eqvLegacy a b = true ↔ a.seq = b.seq ∧ a.nodeId = b.nodeId ∧ a.sig = b.sig := by
+  unfold eqvLegacy
+  simp only [Bool.and_eq_true, decide_eq_true_eq, and_assoc]
+
+/-- the old relation is exactly "same hash feed" -/
+theorem eqvLegacy_iff_hashFeed (a b : Record) :
+    eqvLegacy a b = true ↔ a.hashFeed = b.hashFeed := by
+  rw [eqvLegacy_iff]
+  unfold Record.hashFeed
+  simp only [Prod.mk.injEq]
+
+/-- the repaired `==` is the old one plus equality of the pairs -/
+theorem eqv_eq_legacy_and_content (a b : Record) :
+    a.eqv b = (eqvLegacy a b && decide (a.content = b.content)) := rfl
 
 /-- Under one public key a signature verifies for at most one payload (unforgeability, as a
     hypothesis). -/
@@ -139,12 +193,12 @@ def HashInj (S : Scheme) (a b : Record) : Prop :=
   ∀ pa pb, S.enrToPublic a.content = .ok pa → S.enrToPublic b.content = .ok pb →
     nodeIdOf S pa = nodeIdOf S pb → pa = pb
 
-/-- Equal valid records carry identical pairs and encode identically (indeed they are the same
-    record). -/
-theorem eqv_same_content (S : Scheme) (a b : Record) (ha : Valid S a) (hb : Valid S b)
-    (hsb : SigBinds S) (hhi : HashInj S a b) (h : a.eqv b = true) :
+/-- Under the two cryptographic hypotheses the old `==` did imply identical pairs and encodings
+    on valid records … -/
+theorem eqvLegacy_same_content (S : Scheme) (a b : Record) (ha : Valid S a) (hb : Valid S b)
+    (hsb : SigBinds S) (hhi : HashInj S a b) (h : eqvLegacy a b = true) :
     a.content = b.content ∧ a.encode = b.encode := by
-  obtain ⟨hseq, hnode, hsig⟩ := (eqv_iff a b).mp h
+  obtain ⟨hseq, hnode, hsig⟩ := (eqvLegacy_iff a b).mp h
   obtain ⟨pa, hpa, hna, hva⟩ := ha.authentic
   obtain ⟨pb, hpb, hnb, hvb⟩ := hb.authentic
   have hpk : pa = pb := hhi pa pb hpa hpb (by rw [← hna, ← hnb, hnode])
@@ -156,18 +210,16 @@ theorem eqv_same_content (S : Scheme) (a b : Record) (ha : Valid S a) (hb : Vali
   unfold Record.encode
   rw [hseq, hsig, hc]
 
-theorem eqv_same_record (S : Scheme) (a b : Record) (ha : Valid S a) (hb : Valid S b)
-    (hsb : SigBinds S) (hhi : HashInj S a b) (h : a.eqv b = true) : a = b :=
-  encode_injective_valid S a b ha hb (eqv_same_content S a b ha hb hsb hhi h).2
-
-/-- Under the hypotheses, `==` on valid records is exactly "same encoding". -/
-theorem eqv_iff_encode (S : Scheme) (a b : Record) (ha : Valid S a) (hb : Valid S b)
-    (hsb : SigBinds S) (hhi : HashInj S a b) : a.eqv b = true ↔ a.encode = b.encode := by
-  constructor
-  · exact fun h => (eqv_same_content S a b ha hb hsb hhi h).2
-  · intro h
-    rw [encode_injective_valid S a b ha hb h]
-    exact eqv_refl b
+/-- … i.e. the old and the repaired `==` agree on valid records exactly as far as the two
+    hypotheses hold. -/
+theorem eqvLegacy_eq_eqv (S : Scheme) (a b : Record) (ha : Valid S a) (hb : Valid S b)
+    (hsb : SigBinds S) (hhi : HashInj S a b) : eqvLegacy a b = a.eqv b := by
+  rw [eqv_eq_legacy_and_content]
+  cases h : eqvLegacy a b with
+  | false => rfl
+  | true =>
+    have := (eqvLegacy_same_content S a b ha hb hsb hhi h).1
+    simp [this]
 
 /-! ### the hypotheses are satisfiable -/
 
@@ -258,28 +310,32 @@ private theorem laxRecord_valid (x : UInt8) : Valid laxS (laxRecord x) := by
     rw [e1, e2]
     exact hpk
 
-/-- Without `SigBinds`/`HashInj`: two valid records that are `==` (and hash equally) but carry
-    different pairs and encode differently. -/
-theorem eqv_content_needs_assumptions :
-    ∃ (S : Scheme) (a b : Record), Valid S a ∧ Valid S b ∧ a.eqv b = true ∧
-      a.hashFeed = b.hashFeed ∧ a.content ≠ b.content ∧ a.encode ≠ b.encode := by
-  refine ⟨laxS, laxRecord 4, laxRecord 5, laxRecord_valid 4, laxRecord_valid 5, by decide, rfl,
-    ?_, ?_⟩
-  · intro h
+/-- Without `SigBinds`/`HashInj`: two valid records that were `==` under the old definition (and
+    hash equally) but carry different pairs and encode differently — the defect that was repaired.
+    The repaired `==` tells them apart. -/
+theorem eqvLegacy_content_needs_assumptions :
+    ∃ (S : Scheme) (a b : Record), Valid S a ∧ Valid S b ∧ eqvLegacy a b = true ∧
+      a.hashFeed = b.hashFeed ∧ a.content ≠ b.content ∧ a.encode ≠ b.encode ∧
+      a.eqv b = false := by
+  have hc : (laxRecord 4).content ≠ (laxRecord 5).content := by
+    intro h
     have h2 : Map.lookup (laxRecord 4).content kToy = Map.lookup (laxRecord 5).content kToy := by
       rw [h]
     revert h2
     decide
-  · intro h
-    have := encode_injective_valid laxS _ _ (laxRecord_valid 4) (laxRecord_valid 5) h
-    have h2 : (laxRecord 4).content.length = (laxRecord 5).content.length := by rw [this]
-    have h3 := congrArg Record.content this
-    revert h3
-    decide
+  refine ⟨laxS, laxRecord 4, laxRecord 5, laxRecord_valid 4, laxRecord_valid 5, by decide, rfl,
+    hc, ?_, ne_of_content _ _ hc⟩
+  intro h
+  exact hc (congrArg Record.content
+    (encode_injective_valid laxS _ _ (laxRecord_valid 4) (laxRecord_valid 5) h))
 
 /-! ### examples -/
 
+example : ({ seq := 1, nodeId := [1], content := [(kIp, [3])], sig := [2] } : Record).eqv
+    { seq := 1, nodeId := [1], content := [(kIp, [3])], sig := [2] } = true := by decide
 example : ({ seq := 1, nodeId := [1], content := [], sig := [2] } : Record).eqv
+    { seq := 1, nodeId := [1], content := [(kIp, [3])], sig := [2] } = false := by decide
+example : eqvLegacy { seq := 1, nodeId := [1], content := [], sig := [2] }
     { seq := 1, nodeId := [1], content := [(kIp, [3])], sig := [2] } = true := by decide
 example : ({ seq := 1, nodeId := [1], content := [], sig := [2] } : Record).eqv
     { seq := 2, nodeId := [1], content := [], sig := [2] } = false := by decide
@@ -293,24 +349,32 @@ end EnrVerif
 section Axioms
 open EnrVerif
 #print axioms eqv_iff
+#print axioms eqv_iff_eq
 #print axioms eqv_refl
 #print axioms eqv_symm
 #print axioms eqv_comm
 #print axioms eqv_trans
 #print axioms eqv_hash
-#print axioms eqv_iff_hashFeed
+#print axioms hashFeed_eq_not_eqv
 #print axioms eqv_clone
 #print axioms eqv_redecode
+#print axioms eqv_same_pairs
+#print axioms eqv_same_encoding
+#print axioms eqv_iff_encode
+#print axioms eqv_compareContent
 #print axioms ne_of_seq
 #print axioms ne_of_nodeId
 #print axioms ne_of_sig
+#print axioms ne_of_content
 #print axioms ne_of_pubkey
 #print axioms compareContent_iff_valid
 #print axioms compareContent_ignores_sig
 #print axioms compareContent_of_same
 #print axioms compareContent_refl
-#print axioms eqv_same_content
-#print axioms eqv_same_record
-#print axioms eqv_iff_encode
-#print axioms eqv_content_needs_assumptions
+#print axioms eqvLegacy_iff
+#print axioms eqvLegacy_iff_hashFeed
+#print axioms eqv_eq_legacy_and_content
+#print axioms eqvLegacy_same_content
+#print axioms eqvLegacy_eq_eqv
+#print axioms eqvLegacy_content_needs_assumptions
 end Axioms
